@@ -12,6 +12,10 @@ from props import lat
 import gen
 
 
+NASTY = ['a b', 'back\\slash', 'C:\\bin', "it's", 'say "hi"', 'tab\there', 'line\nbreak', 'é', '日本', 'a,b', '{x}', '%s', '\\n', "'", '"', '#1',
+         'p|q', 'None', '0', ' lead', 'trail ', '\x08bs', 'ß', '\u2028ls', 'x' * 40]
+
+
 def deep_view(pc, ctx):
     """Everything observable of a context and its lattice that the other properties pin, as text."""
     L = ctx.lattice
@@ -193,6 +197,23 @@ def run(run):
                     fresh_items.append((tab, 'lattice', pickle.dumps(ctx.lattice)))
                     fresh_expect.append((pc.line, base))
             run.count('contexts')
+            # the same table with awkward labels through the text carriers
+            if count % 5 == 2 and pc.n + pc.m <= len(NASTY):
+                labels = rng.sample(NASTY, pc.n + pc.m)
+                with guard(run, 'carriers with awkward labels %r' % (labels,), [pc.line]):
+                    pn = PyCtx(tab, labels[:pc.n], labels[pc.n:])
+                    basen = deep_view(pn, concepts.Context(pn.objects, pn.properties, pn.bools))
+                    cn = pn.ctx
+                    cn.lattice
+                    for what, c2 in (
+                            ('literal with lattice (awkward labels)', concepts.Context.fromstring(cn.tostring('python-literal'), 'python-literal')),
+                            ('dict (awkward labels)', concepts.Context.fromdict(cn.todict())),
+                            ('json (awkward labels)', (lambda b: (cn.tojson(b), concepts.Context.fromjson(io.StringIO(b.getvalue())))[1])(io.StringIO())),
+                            ('pickle lattice (awkward labels)', (lambda L2: (L2._context.__dict__.__setitem__('lattice', L2), L2._context)[1])(pickle.loads(pickle.dumps(cn.lattice))))):
+                        run.case(pc.line + '|' + what, gen.nontrivial(tab))
+                        run.count(what.split(' ')[0])
+                        if not (c2 == cn) or deep_view(pn, c2) != basen:
+                            run.fail(what + ': reloaded context / lattice differs', [c2.objects, c2.properties], [cn.objects, cn.properties], [pc.line], {'labels': labels})
         # fresh interpreter with another hash seed
         if fresh_items:
             path = os.path.join(work, 'fresh.pkl')
